@@ -117,3 +117,39 @@ def destructive_sinks(p: Program, f: Function) -> List[Tuple[ast.Call, ast.AST, 
             if c.func.value.args:
                 out.append((c, c.func.value.args[0], "Path." + c.func.attr))
     return out
+
+
+def whole_axis_range(func_node, loop: ast.For) -> Tuple[bool, str]:
+    """Is the loop's iteration space a whole array axis?  Accepted: range(N) / prange(N) / numba.prange(N) with N one of
+    X.shape[k], len(X), or a local bound exactly once to one of those (directly or as element k of `... = X.shape`).
+    Returns (ok, description of the extent)."""
+    it = loop.iter
+    if not (isinstance(it, ast.Call) and ast.unparse(it.func) in ("range", "prange", "numba.prange") and not it.keywords):
+        return False, ast.unparse(it)
+    if len(it.args) == 2 and isinstance(it.args[0], ast.Constant) and it.args[0].value == 0:
+        stop = it.args[1]
+    elif len(it.args) == 1:
+        stop = it.args[0]
+    else:
+        return False, ast.unparse(it)
+    la = local_assignments(func_node)
+
+    def extent(e, depth=0) -> Optional[str]:
+        if isinstance(e, ast.Subscript) and isinstance(e.value, ast.Attribute) and e.value.attr == "shape" \
+                and isinstance(e.slice, (ast.Constant, ast.UnaryOp)):
+            return ast.unparse(e)
+        if isinstance(e, ast.Call) and isinstance(e.func, ast.Name) and e.func.id == "len" and len(e.args) == 1:
+            return ast.unparse(e)
+        if isinstance(e, ast.Name) and depth < 3:
+            defs = la.get(e.id, [])
+            if len(defs) != 1:
+                return None
+            d = defs[0]
+            if d[0] == "assign":
+                return extent(d[1], depth + 1)
+            if d[0] == "unpack" and isinstance(d[1], ast.Attribute) and d[1].attr == "shape":
+                return f"{ast.unparse(d[1])}[{d[2]}]"
+        return None
+
+    ex = extent(stop)
+    return (ex is not None), (ex or ast.unparse(it))
